@@ -205,10 +205,39 @@ def _absent_guard(view: FuncInfo, sh: Shapes, keyp: list[Production], jmap: dict
             elif alls:
                 worst = (True, False, "every pair of the layer must be realised: the requirement is judged per module pair instead of per layer")
             else:
-                if any(isinstance(x, ast.Call) for c, _pol in cs for x in ast.walk(c)):
-                    return None, None, f"the condition under which `{norm(p.elt, 50)}` is reported missing was not understood ({norm(cs[-1][0], 60) if cs else 'unconditional'})"
+                odd = [c for c, _pol in cs if not _is_gating(view, sh, c)]
+                if odd:
+                    return None, None, f"the condition `{norm(odd[-1], 60)}` under which `{norm(p.elt, 50)}` is reported missing was not understood"
                 worst = (True, False, f"`{norm(p.elt, 50)}` is reported missing without testing whether the layer has any realised pair")
     return worst
+
+
+def _is_gating(view: FuncInfo, sh: Shapes, c: ast.expr) -> bool:
+    """The condition cannot hide a decision about realised pairs: it only reads parameters that carry no dependency data,
+    fields of the detector, or asks whether a dictionary of dependencies has *keys* (`if not group: continue`)."""
+    for x in ast.walk(c):
+        if isinstance(x, ast.Compare) and any(isinstance(o, (ast.In, ast.NotIn)) for o in x.ops):
+            return False
+        if isinstance(x, ast.Call):
+            f = x.func
+            if isinstance(f, ast.Name) and f.id in ("isinstance", "len", "bool"):
+                continue
+            return False
+        if isinstance(x, ast.Name) and isinstance(x.ctx, ast.Load):
+            if x.id in ("self", "cls", "isinstance", "len", "bool", "None", "True", "False"):
+                continue
+            ts = sh.tags(x)
+            if any(t[0] in ("L", "LL", "P", "E", "IT", "I") for t in ts):
+                return False
+            if x.id in view.param_names:
+                continue
+            if ts and all(t[0] in ("D", "G", "K", "KS", "KE", "KN", "DS", "GI") for t in ts):
+                continue
+            v = single_value(view, x)
+            if v is not x and isinstance(v, ast.Attribute) and isinstance(v.value, (ast.Name, ast.Attribute)):
+                continue
+            return False
+    return True
 
 
 def _orientation(repo: Repo, view: FuncInfo, sh: Shapes):
